@@ -12,6 +12,7 @@ import GoHeader.Oracle.C10
 import GoHeader.Oracle.C15
 import GoHeader.Oracle.C16
 import GoHeader.Oracle.C09
+import GoHeader.Oracle.C13
 open GoHeader GoHeader.Oracle
 
 def evalLine (line : String) : Option Verdict :=
@@ -26,6 +27,7 @@ def evalLine (line : String) : Option Verdict :=
     | "C15" :: rest => some (evalC15 rest outs)
     | "C16" :: rest => some (evalC16 rest outs)
     | "C09" :: rest => some (evalC09 rest outs)
+    | "C13" :: rest => some (evalC13 rest outs)
     | _ => some (.bad "unknown property tag")
 
 structure DAcc where
